@@ -269,6 +269,9 @@ func (r *Run) Finish() int {
 		"wall_s":      time.Since(r.Start).Seconds(),
 		"violations":  nviol,
 	}
+	if strings.HasPrefix(r.Prop, "X-") {
+		return 0 // debugging views are not checks and leave no evidence
+	}
 	os.MkdirAll(filepath.Join(vd, "evidence"), 0o755)
 	b, _ := json.MarshalIndent(ev, "", " ")
 	if err := os.WriteFile(filepath.Join(vd, "evidence", r.Prop+".json"), b, 0o644); err != nil {
